@@ -330,19 +330,19 @@ def apply(m: str, op: str, a):
         tot = 8 * sum(sizes)
         if tot == 0:
             return m, 0
-        l, reps, p = m, 0, s
+        out, reps, p = [m[:s]], 0, s          # (pieces are collected and joined once: linear in the length)
         while p + tot <= e:
             q = p
             for z in sizes:
-                chunk = l[q:q + 8 * z]
-                by = [chunk[i:i + 8] for i in range(0, len(chunk), 8)][::-1]
-                l = l[:q] + ''.join(by) + l[q + 8 * z:]
+                chunk = m[q:q + 8 * z]
+                out.append(''.join([chunk[i:i + 8] for i in range(0, len(chunk), 8)][::-1]))
                 q += 8 * z
             reps += 1
             p += tot
             if not rep:
                 break
-        return l, reps
+        out.append(m[p:])
+        return ''.join(out), reps
     raise KeyError(op)
 
 
